@@ -25,6 +25,8 @@ struct Out {
     cfg_items: Vec<(String, String, String)>,                     // file, cfg text, what
     maps: Vec<(String, String, String)>,                          // file, fn, description of HashMap/HashSet iteration
     hash_types: Vec<(String, String)>,                            // file, printed `HashMap<..>` / `HashSet<..>` type
+    self_calls: Vec<(String, String)>,                            // file, fn: one entry per call of a fn to itself
+    loops: Vec<(String, String, String)>,                         // file, fn, `loop` / `while` (unbounded iteration)
     errors: Vec<String>,
 }
 
@@ -231,6 +233,31 @@ impl<'a, 'ast> Visit<'ast> for V<'a> {
         visit::visit_expr_path(self, e);
     }
 
+    fn visit_expr_call(&mut self, e: &'ast syn::ExprCall) {
+        if let syn::Expr::Path(p) = e.func.as_ref() {
+            // an unqualified call `f(..)` inside `fn f` (qualified calls name another impl's method)
+            if let (1, Some(seg)) = (p.path.segments.len(), p.path.segments.last()) {
+                if Some(&seg.ident.to_string()) == self.fn_stack.last() {
+                    let f = self.cur_fn();
+                    self.out.self_calls.push((self.file.clone(), f));
+                }
+            }
+        }
+        visit::visit_expr_call(self, e);
+    }
+
+    fn visit_expr_loop(&mut self, e: &'ast syn::ExprLoop) {
+        let f = self.cur_fn();
+        self.out.loops.push((self.file.clone(), f, "loop".to_string()));
+        visit::visit_expr_loop(self, e);
+    }
+
+    fn visit_expr_while(&mut self, e: &'ast syn::ExprWhile) {
+        let f = self.cur_fn();
+        self.out.loops.push((self.file.clone(), f, "while".to_string()));
+        visit::visit_expr_while(self, e);
+    }
+
     fn visit_type_path(&mut self, t: &'ast syn::TypePath) {
         if let Some(seg) = t.path.segments.last() {
             let n = seg.ident.to_string();
@@ -407,6 +434,12 @@ pub fn run(root: &str, outdir: &str) -> i32 {
         .map(|(a, b, c, d)| format!("  ({}, {}, {}, {})", lean_str(a), lean_str(b), lean_str(c), lean_str(d)))
         .collect();
     writeln!(p, "{}\n]", rows.join(",\n")).unwrap();
+    writeln!(p, "\n/-- Functions that call themselves: (file, fn), one entry per self-call. -/").unwrap();
+    writeln!(p, "def selfCalls : List (String × String) := [{}]",
+        out.self_calls.iter().map(|(a, b)| format!("({}, {})", lean_str(a), lean_str(b))).collect::<Vec<_>>().join(", ")).unwrap();
+    writeln!(p, "\n/-- `loop` / `while` expressions (iteration not bounded by a collection): (file, fn, kind). -/").unwrap();
+    writeln!(p, "def openLoops : List (String × String × String) := [{}]",
+        out.loops.iter().map(|(a, b, c)| format!("({}, {}, {})", lean_str(a), lean_str(b), lean_str(c))).collect::<Vec<_>>().join(", ")).unwrap();
     writeln!(p, "\nend Educe.Generated").unwrap();
     std::fs::write(Path::new(outdir).join("PanicSites.lean"), p).unwrap();
 
